@@ -376,7 +376,8 @@ def run_logger(args):
                 ops.append(["flush"])
             else:
                 mod = rnd.choice(MODULES)
-                qn = f"f{ci}_{j}"
+                # plain, method-like and nested-function qualified names (a function of __main__ is any of them)
+                qn = rnd.choice([f"f{ci}_{j}", f"f{ci}_{j}", f"K{ci}.m{j}", f"outer{ci}.<locals>.inner{j}", f"K{ci}.Inner.sm{j}"])
 
                 def fn():
                     pass
@@ -384,7 +385,10 @@ def run_logger(args):
                 fn.__qualname__ = qn
                 t = CallTrace(fn, {}, None)
                 ids[id(t)] = (mod, qn)
-                lg.log(t)
+                try:
+                    lg.log(t)
+                except Exception:          # a logger that raises has not recorded the trace: judged like a lost trace
+                    pass
                 ops.append(["log", mod, qn])
         added = [[list(ids.get(id(t), ("?unknown", "?"))) for t in b] for b in store.batches]
         buf = [list(ids.get(id(t), ("?unknown", "?"))) for t in lg.traces]
